@@ -165,7 +165,7 @@ def gen_request(r):
         path = "/pyro/" + obj + "/" + member
     params = []
     for _ in range(r.choice([0, 0, 1, 2, 3])):
-        params.append((r.choice(["a", "b", "x", "name", "ä"]), r.choice(["1", "two", "a b", "ü", "x&y", "=", "0"])))
+        params.append((r.choice(["a", "b", "x", "name", "ä", "method", "proxy", "path", "environ", "msg", "uri", "object_name"]), r.choice(["1", "two", "a b", "ü", "x&y", "=", "0"])))
     if r.random() < 0.15 and params:
         params.append((params[0][0], "again"))
     keymode = r.choice(["none", "none", "header-right", "header-right", "param-right", "both-right", "header-right", "header-wrong", "param-right", "param-wrong", "both-right", "header-wrong-param-right", "header-right-param-wrong", "param-twice"])
